@@ -66,3 +66,35 @@ prop(
     [st("checked"), st("release")],
     VOC_ASSUME,
 )
+
+prop(
+    "C02",
+    "exploration",
+    "histories over {step(fp), step(2fp), step(3fp-1), frames-produced query, finish}: EVERY history up to length 5 (quick) / 7 (thorough) on generators of 0..5 frames (tiny generated voice, one frame per label) is enumerated; random long histories (buffer sizes in [fp,3fp], finish at a random cut incl. 0, F and past the end) on the bundled and generated voices under random conditions; each is checked against a sequential cursor model over the one-shot waveform; non-trivial = a step followed by a finish at 0<k<F, or >= 2 distinct buffer sizes; distinct by (voice, F, history)",
+    [st("checked", death_is_violation=True)],
+    [st("checked", death_is_violation=True), st("release", death_is_violation=True)],
+    ["buffer contents beyond the first fperiod samples are not constrained (the statement does not say)"],
+    exhaustive_part="the sub-space 'exhaustive' (all histories up to the length bound on 0..5-frame generators) is enumerated completely; the random sub-space is sampled",
+)
+prop(
+    "C05",
+    "exploration",
+    "cases = random streams (1..60 states, durations 1..8, vector length 1..4, variances in [0.05,3], 6 voicing-pattern classes incl. all-unvoiced and 1-2 frame islands at the edges, 5 window sets incl. width-5) through the public MlpgAdjust with gv=None; every voiced island x vector index is checked against the dense normal equations of the definition (relative residual <= 1e-10 and agreement with Gaussian elimination <= 1e-8); non-trivial = island of >= 3 frames with >= 1 active dynamic row; distinct by (window set, pattern class, vector length, island-length profile)",
+    [st("checked")],
+    [st("checked"), st("release")],
+)
+prop(
+    "C07",
+    "exploration",
+    "runs through the public Vocoder with an all-zero spectrum (identity filter): constant F0 (20 Hz..rate/2, integer and fractional periods), F0 limits, unvoiced noise statistics (mean, variance, lag-1 correlation; deterministic generator), random F0 walks with V/UV switches (pulse height and gap laws of a linear period glide), mixed excitation with random odd low-pass rows 1..31 reconstructed from the separately observed pulse train and noise sequence; 6 rates, frame periods 40..480; non-trivial = >= 10 pulses measured or >= 1 V/UV switch with a low-pass row",
+    [st("checked")],
+    [st("checked"), st("release")],
+)
+prop(
+    "C08",
+    "exploration",
+    "cases = duration-model sequences (1..200 states, means 0.2..60, variances 1e-3..400, identical Gaussians for equal-cost ties, x.5 means) x 13+ speeds in [0.1,50] incl. 1+-1e-9 and ratios that land on x.5 targets, through the public DurationEstimator; plus end-to-end utterances of the bundled voice (hooked durations and waveform length) against the law computed from the file by the independent reader; non-trivial = round(F1/s) > states and s != 1",
+    [st("checked")],
+    [st("checked"), st("release")],
+    ["a target within 1e-7 of x.5 accepts both neighbouring totals"],
+)
